@@ -35,6 +35,11 @@ checks["C07"]=dict(
    note="Trusted: go/types; syntactic access paths with one level of local aliasing instead of points-to; visitor callbacks resolved through the literal that builds the visitor, func-typed fields by the set of values stored into them anywhere in cog. Veneer-side configuration sharing (Properties, AddFactory) is reported as a note only: no in-place rewrite of those parts of a builder is reachable today. Output equality under permutation of inputs is not decided.",
    technique="interprocedural write-set (effects) analysis + who-may-call over resolved callees + ownership lint + callback-state and sticky-error rules",
    design="§3.C07")
+checks["C06"]=dict(
+   text="Structural necessary conditions for the per-language normal form: (1) a frozen contract table (clause -> establishing pass, passes that must precede it, languages) checked against every Language.CompilerPasses() literal resolved by type; (2) reach of each establishing pass into nested positions — visitor callbacks that replace the default traversal hand the node's children back to the visitor; hand-rolled recursions dispatch over every container kind in which the construct can nest and recurse into that kind's child positions.",
+   note="Trusted: the contract table in c06.go (transcribed from the property and the passes' doc comments), go/types. Does not decide that a pass's rewrite is correct, only that it is scheduled and applied at every depth; identifier rules of target languages are not modelled.",
+   technique="pass-chain contract table over type-resolved composite literals + traversal-reach analysis of visitor callbacks and recursive kind dispatchers",
+   design="§3.C06")
 pending = {}
 props = [json.loads(l) for l in open(os.path.join(here, "properties.jsonl"))]
 m = {
